@@ -1239,6 +1239,7 @@ where
     /// Send all stored packets for retransmission
     fn send_stored(&mut self) -> Vec<GenericEvent<PacketIdType>> {
         let mut events = Vec::new();
+        let mut resent: usize = 0;
         self.store.for_each(|packet| {
             if packet.size() > self.maximum_packet_size_send as usize {
                 let packet_id = packet.packet_id();
@@ -1254,8 +1255,14 @@ where
                 packet: packet.clone().into(),
                 release_packet_id_if_send_error: None,
             });
+            resent += 1;
             true // Keep in store
         });
+        // Every retransmitted PUBLISH / PUBREL is an incomplete exchange of this connection
+        // and counts against the peer's Receive Maximum.
+        if self.publish_send_max.is_some() {
+            self.publish_send_count = resent.min(u16::MAX as usize) as u16;
+        }
 
         events
     }
@@ -1716,7 +1723,7 @@ where
         // Check receive_maximum for sending (QoS 1 and 2 packets)
         if packet.qos() == Qos::AtLeastOnce || packet.qos() == Qos::ExactlyOnce {
             if let Some(max) = self.publish_send_max {
-                if self.publish_send_count == max {
+                if self.publish_send_count >= max {
                     events.push(GenericEvent::NotifyError(MqttError::ReceiveMaximumExceeded));
                     if let Some(packet_id) = packet_id_opt {
                         if self.pid_man.is_used_id(packet_id) {
